@@ -136,28 +136,86 @@ Section WithHash.
   (** ---- Verify, characterised: total on every list of records, and its
       answer is exactly "root = the recomputed chain" ---- *)
 
+  (** the test the verifier makes on every supplied node: Height >= 1 *)
+  Definition heights_ok (pi : list pnode) : bool :=
+    forallb (fun n => 1 <=? pn_height n) pi.
+
+  Lemma chain_chk_char : forall pi x,
+    chain_chk H x pi = if heights_ok pi then Some (chain H x pi) else None.
+  Proof.
+    induction pi as [|n pi IH]; intro x; [reflexivity|].
+    cbn [chain_chk heights_ok forallb]. fold (heights_ok pi).
+    rewrite Z.ltb_antisym. destruct (1 <=? pn_height n); simpl; [|reflexivity].
+    rewrite IH. reflexivity.
+  Qed.
+
   Lemma verify_kv_char : forall root k v pi,
-    verify_kv H root k v pi = beq root (chain H (leaf_hash H k v) pi).
+    verify_kv H root k v pi = heights_ok pi && beq root (chain H (leaf_hash H k v) pi).
   Proof.
     intros. unfold verify_kv, read_proof, verify. simpl.
     rewrite beq_refl. simpl.
     rewrite (trim32_short (leaf_hash H k v)) by (rewrite leaf_hash_len; lia).
-    rewrite beq_refl. reflexivity.
+    rewrite beq_refl. simpl. rewrite chain_chk_char.
+    destruct (heights_ok pi); reflexivity.
   Qed.
 
   Lemma verify_char : forall p k v root,
     verify H p k v root =
     beq (pf_root p) root && beq (leaf_hash H k v) (trim32 (pf_leaf p)) &&
+    heights_ok (pf_inner p) &&
     beq (pf_root p) (chain H (leaf_hash H k v) (pf_inner p)).
   Proof.
     intros. unfold verify.
     destruct (beq (pf_root p) root); simpl; [|reflexivity].
-    destruct (beq (leaf_hash H k v) (trim32 (pf_leaf p))); reflexivity.
+    destruct (beq (leaf_hash H k v) (trim32 (pf_leaf p))); simpl; [|reflexivity].
+    rewrite chain_chk_char. destruct (heights_ok (pf_inner p)); reflexivity.
   Qed.
 
   Lemma verify_kv_true : forall root k v pi,
-    verify_kv H root k v pi = true <-> root = chain H (leaf_hash H k v) pi.
-  Proof. intros. rewrite verify_kv_char. apply beq_iff. Qed.
+    verify_kv H root k v pi = true <->
+    heights_ok pi = true /\ root = chain H (leaf_hash H k v) pi.
+  Proof.
+    intros. rewrite verify_kv_char, andb_true_iff.
+    split; intros [A B]; (split; [exact A|apply beq_iff; exact B]).
+  Qed.
+
+  (** a supplied node of height < 1 anywhere in the list: rejected, whatever the rest *)
+  Lemma bad_height_rejected : forall root k v pi,
+    existsb (fun n => pn_height n <? 1) pi = true -> verify_kv H root k v pi = false.
+  Proof.
+    intros root k v pi E. rewrite verify_kv_char.
+    replace (heights_ok pi) with false; [reflexivity|].
+    symmetry. apply not_true_is_false. intro Hh. unfold heights_ok in Hh.
+    apply existsb_exists in E as (n & In_n & Hn).
+    rewrite forallb_forall in Hh. specialize (Hh n In_n).
+    rewrite Z.ltb_antisym, Hh in Hn. discriminate.
+  Qed.
+
+  Lemma heights_ok_snoc : forall pi n,
+    heights_ok (pi ++ [n]) = true -> heights_ok pi = true /\ 1 <= pn_height n.
+  Proof.
+    intros pi n E. unfold heights_ok in *. rewrite forallb_app in E.
+    apply andb_true_iff in E as [E1 E2]. split; [exact E1|].
+    simpl in E2. rewrite andb_true_r in E2. apply Z.leb_le in E2. exact E2.
+  Qed.
+
+  (** honest proofs pass the test: every inner node of a sized tree has height >= 1 *)
+  Lemma construct_heights_ok : forall t, sized t -> forall pf k v lh pi,
+    construct H pf t k = Some (v, lh, pi) -> heights_ok pi = true.
+  Proof.
+    induction t as [lk lv|nk h s l IHl r IHr]; intros Hs pf k v lh pi C.
+    - simpl in C. destruct (beq lk k); [|discriminate]. inversion C; reflexivity.
+    - destruct (sized_node_inv _ _ _ _ _ Hs) as (Hsl & Hsr & Hpos).
+      cbn [construct] in C. destruct (blt k nk).
+      + destruct (construct H (sub pf false) l k) as [[[v0 lh0] pi0]|] eqn:Cl; [|discriminate].
+        inversion C; subst. pose proof (IHl Hsl _ _ _ _ _ Cl) as Hi.
+        unfold heights_ok in *. rewrite forallb_app, Hi. simpl. rewrite andb_true_r.
+        apply Z.leb_le. exact Hpos.
+      + destruct (construct H (sub pf true) r k) as [[[v0 lh0] pi0]|] eqn:Cr; [|discriminate].
+        inversion C; subst. pose proof (IHr Hsr _ _ _ _ _ Cr) as Hi.
+        unfold heights_ok in *. rewrite forallb_app, Hi. simpl. rewrite andb_true_r.
+        apply Z.leb_le. exact Hpos.
+  Qed.
 
   (** ---- completeness ---- *)
 
@@ -182,13 +240,15 @@ Section WithHash.
   Qed.
 
   Theorem complete : forall pf t k v lh pi,
+    sized t ->
     construct H pf t k = Some (v, lh, pi) ->
     verify_kv H (digest H pf t) k v pi = true /\
     verify H (mk_proof lh pi (digest H pf t)) k v (digest H pf t) = true.
   Proof.
-    intros pf t k v lh pi C. destruct (construct_chain _ _ _ _ _ _ C) as [Ch Tl]. split.
-    - apply verify_kv_true. symmetry. exact Ch.
-    - rewrite verify_char. simpl. rewrite Tl, Ch, !beq_refl. reflexivity.
+    intros pf t k v lh pi Hs C. destruct (construct_chain _ _ _ _ _ _ C) as [Ch Tl].
+    pose proof (construct_heights_ok _ Hs _ _ _ _ _ C) as Hh. split.
+    - apply verify_kv_true. split; [exact Hh|]. symmetry. exact Ch.
+    - rewrite verify_char. simpl. rewrite Tl, Ch, Hh, !beq_refl. reflexivity.
   Qed.
 
   (** the proof search finds exactly the leaves *)
@@ -236,32 +296,6 @@ Section WithHash.
 
   (** ---- soundness ---- *)
 
-  Lemma no_confusable_app : forall a b,
-    no_confusable (a ++ b) = true -> no_confusable a = true /\ no_confusable b = true.
-  Proof. intros a b E. unfold no_confusable in *. rewrite forallb_app in E. apply andb_true_iff in E. exact E. Qed.
-
-  (** a leaf (k0, v0) whose hash input coincides with that of a proof step *)
-  Lemma leaf_step_confusable : forall c n k0 v0,
-    length c = 32%nat ->
-    (match pn_left n with
-     | [] => (trim32 c, trim32 (pn_right n))
-     | _ :: _ => (trim32 (pn_left n), trim32 c)
-     end) = (k0, v0) ->
-    confusable k0 v0 = true.
-  Proof.
-    intros c n k0 v0 Lc E. unfold confusable.
-    destruct (pn_left n) as [|x l'] eqn:El; inversion E; subst; clear E.
-    - rewrite !trim32_length, Lc. simpl.
-      replace (Nat.leb (Nat.min (length (pn_right n)) 32) 32) with true
-        by (symmetry; apply Nat.leb_le; lia). reflexivity.
-    - rewrite !trim32_length, Lc. cbn [length].
-      replace (Nat.leb (Nat.min (S (length l')) 32) 32) with true
-        by (symmetry; apply Nat.leb_le; lia).
-      replace (Nat.eqb (Nat.min (S (length l')) 32) 0) with false
-        by (symmetry; apply Nat.eqb_neq; lia).
-      simpl. apply orb_true_r.
-  Qed.
-
   Lemma iph_unfold : forall c n,
     inner_proof_hash H c n =
     match pn_left n with
@@ -282,74 +316,11 @@ Section WithHash.
       (destruct (H_cases _ _ _ _ _ _ _ _ E) as [(-> & -> & -> & ->)|C]; [left; auto|right; exact C]).
   Qed.
 
-  Lemma sound_aux : forall t, sized t -> no_confusable (elements t) = true ->
-    forall pf k v pi,
-      chain H (leaf_hash H k v) pi = digest H pf t ->
-      In (k, v) (elements t) \/ collision.
-  Proof.
-    induction t as [k0 v0|nk h s l IHl r IHr]; intros Hs Hg pf k v pi E.
-    - (* the tree is a leaf *)
-      change (digest H pf (Leaf k0 v0)) with (H k0 v0 0 1) in E.
-      destruct (list_rev_case pi) as [->|[pi' [n ->]]].
-      + simpl in E. unfold leaf_hash in E.
-        destruct (H_cases _ _ _ _ _ _ _ _ E) as [(-> & -> & _)|C]; [left; left; reflexivity|right; exact C].
-      + rewrite chain_snoc in E.
-        destruct (step_eq _ _ _ _ _ _ E) as [(P & _ & _)|C]; [|right; exact C].
-        apply leaf_step_confusable in P; [|apply chain_len, leaf_hash_len].
-        simpl in Hg. rewrite P in Hg. discriminate.
-    - destruct (sized_node_inv _ _ _ _ _ Hs) as (Hsl & Hsr & Hh).
-      simpl in Hg. destruct (no_confusable_app _ _ Hg) as [Hgl Hgr].
-      rewrite digest_node in E.
-      destruct (list_rev_case pi) as [->|[pi' [n ->]]].
-      + simpl in E. unfold leaf_hash in E.
-        destruct (H_cases _ _ _ _ _ _ _ _ E) as [(_ & _ & Eh & _)|C]; [lia|right; exact C].
-      + rewrite chain_snoc in E.
-        assert (Lc : length (chain H (leaf_hash H k v) pi') = 32%nat) by (apply chain_len, leaf_hash_len).
-        destruct (step_eq _ _ _ _ _ _ E) as [(P & _ & _)|C]; [|right; exact C].
-        simpl. destruct (pn_left n) as [|x l']; inversion P as [[P1 P2]]; clear P.
-        * rewrite trim32_short in P1 by lia.
-          destruct (IHl Hsl Hgl _ _ _ _ P1) as [I|C]; [left; apply in_or_app; left; exact I|right; exact C].
-        * rewrite trim32_short in P2 by lia.
-          destruct (IHr Hsr Hgr _ _ _ _ P2) as [I|C]; [left; apply in_or_app; right; exact I|right; exact C].
-  Qed.
-
-  Theorem sound : forall t pf k v pi,
-    sized t -> no_confusable (elements t) = true ->
-    verify_kv H (digest H pf t) k v pi = true ->
-    In (k, v) (elements t) \/ collision.
-  Proof.
-    intros t pf k v pi Hs Hg V. apply verify_kv_true in V.
-    eapply sound_aux; eauto.
-  Qed.
-
-  (** the same through Proof.Verify with arbitrary LeafHash / RootHash fields *)
-  Theorem sound_struct : forall t pf p k v,
-    sized t -> no_confusable (elements t) = true ->
-    verify H p k v (digest H pf t) = true ->
-    In (k, v) (elements t) \/ collision.
-  Proof.
-    intros t pf p k v Hs Hg V. rewrite verify_char in V.
-    apply andb_true_iff in V as [V V3]. apply andb_true_iff in V as [V1 V2].
-    apply beq_iff in V1. apply beq_iff in V3. rewrite V1 in V3.
-    eapply sound_aux; eauto.
-  Qed.
-
-  (** ---- soundness of the REPAIRED verifier (work/C03/fix.diff): when every
-      supplied node has a height different from 0 no guard on the tree is
-      needed ---- *)
-
-  Definition heights_ok (pi : list pnode) : bool :=
-    forallb (fun n => negb (pn_height n =? 0)) pi.
-
-  Lemma heights_ok_snoc : forall pi n,
-    heights_ok (pi ++ [n]) = true -> heights_ok pi = true /\ pn_height n <> 0.
-  Proof.
-    intros pi n E. unfold heights_ok in *. rewrite forallb_app in E.
-    apply andb_true_iff in E as [E1 E2]. split; [exact E1|].
-    simpl in E2. rewrite andb_true_r in E2. apply negb_true_iff in E2. apply Z.eqb_neq in E2. exact E2.
-  Qed.
-
-  Lemma sound_heights_aux : forall t, sized t ->
+  (** A chain of accepted nodes (all heights >= 1) that ends in the digest of a
+      sized tree starts at one of its leaves - or exhibits a collision.  The last
+      node of the chain has height >= 1, so it cannot be the hash input of a
+      leaf (height 0): no condition on the stored keys and values is needed. *)
+  Lemma sound_aux : forall t, sized t ->
     forall pf k v pi, heights_ok pi = true ->
       chain H (leaf_hash H k v) pi = digest H pf t ->
       In (k, v) (elements t) \/ collision.
@@ -360,7 +331,7 @@ Section WithHash.
       + simpl in E. unfold leaf_hash in E.
         destruct (H_cases _ _ _ _ _ _ _ _ E) as [(-> & -> & _)|C]; [left; left; reflexivity|right; exact C].
       + rewrite chain_snoc in E. destruct (heights_ok_snoc _ _ Hh) as [_ Hn].
-        destruct (step_eq _ _ _ _ _ _ E) as [(_ & Eh & _)|C]; [contradiction|right; exact C].
+        destruct (step_eq _ _ _ _ _ _ E) as [(_ & Eh & _)|C]; [lia|right; exact C].
     - destruct (sized_node_inv _ _ _ _ _ Hs) as (Hsl & Hsr & Hpos).
       rewrite digest_node in E.
       destruct (list_rev_case pi) as [->|[pi' [n ->]]].
@@ -376,31 +347,26 @@ Section WithHash.
           destruct (IHr Hsr _ _ _ _ Hh' P2) as [I|C]; [left; apply in_or_app; right; exact I|right; exact C].
   Qed.
 
-  Theorem sound_repaired : forall t pf k v pi,
+  Theorem sound : forall t pf k v pi,
     sized t ->
-    heights_ok pi && verify_kv H (digest H pf t) k v pi = true ->
+    verify_kv H (digest H pf t) k v pi = true ->
     In (k, v) (elements t) \/ collision.
   Proof.
-    intros t pf k v pi Hs V. apply andb_true_iff in V as [Hh V]. apply verify_kv_true in V.
-    eapply sound_heights_aux; eauto.
+    intros t pf k v pi Hs V. apply verify_kv_true in V as [Hh V].
+    eapply sound_aux; eauto.
   Qed.
 
-  (** honest proofs pass the added test *)
-  Lemma construct_heights_ok : forall t, sized t -> forall pf k v lh pi,
-    construct H pf t k = Some (v, lh, pi) -> heights_ok pi = true.
+  (** the same through Proof.Verify with arbitrary LeafHash / RootHash fields *)
+  Theorem sound_struct : forall t pf p k v,
+    sized t ->
+    verify H p k v (digest H pf t) = true ->
+    In (k, v) (elements t) \/ collision.
   Proof.
-    induction t as [lk lv|nk h s l IHl r IHr]; intros Hs pf k v lh pi C.
-    - simpl in C. destruct (beq lk k); [|discriminate]. inversion C; reflexivity.
-    - destruct (sized_node_inv _ _ _ _ _ Hs) as (Hsl & Hsr & Hpos).
-      cbn [construct] in C. destruct (blt k nk).
-      + destruct (construct H (sub pf false) l k) as [[[v0 lh0] pi0]|] eqn:Cl; [|discriminate].
-        inversion C; subst. pose proof (IHl Hsl _ _ _ _ _ Cl) as Hi.
-        unfold heights_ok in *. rewrite forallb_app, Hi. simpl. rewrite andb_true_r.
-        apply negb_true_iff, Z.eqb_neq. lia.
-      + destruct (construct H (sub pf true) r k) as [[[v0 lh0] pi0]|] eqn:Cr; [|discriminate].
-        inversion C; subst. pose proof (IHr Hsr _ _ _ _ _ Cr) as Hi.
-        unfold heights_ok in *. rewrite forallb_app, Hi. simpl. rewrite andb_true_r.
-        apply negb_true_iff, Z.eqb_neq. lia.
+    intros t pf p k v Hs V. rewrite verify_char in V.
+    apply andb_true_iff in V as [V V3]. apply andb_true_iff in V as [V Vh].
+    apply andb_true_iff in V as [V1 V2].
+    apply beq_iff in V1. apply beq_iff in V3. rewrite V1 in V3.
+    eapply sound_aux; eauto.
   Qed.
 
   (** ---- a proof is bound to its key and value ---- *)
@@ -422,7 +388,7 @@ Section WithHash.
     verify_kv H (digest H pf t) k' v' pi = true ->
     (k' = k /\ v' = v) \/ collision.
   Proof.
-    intros pf t k v lh pi k' v' C V. apply verify_kv_true in V.
+    intros pf t k v lh pi k' v' C V. apply verify_kv_true in V as [_ V].
     destruct (construct_chain _ _ _ _ _ _ C) as [Ch _]. rewrite <- Ch in V.
     destruct (chain_inj _ _ _ (leaf_hash_len k v) (leaf_hash_len k' v') V) as [E|Cl]; [|right; exact Cl].
     unfold leaf_hash in E.
@@ -433,45 +399,66 @@ Section WithHash.
 
   Theorem root_unique : forall r r' k v pi,
     verify_kv H r k v pi = true -> verify_kv H r' k v pi = true -> r = r'.
-  Proof. intros r r' k v pi V V'. apply verify_kv_true in V, V'. congruence. Qed.
+  Proof.
+    intros r r' k v pi V V'. apply verify_kv_true in V as [_ V]. apply verify_kv_true in V' as [_ V'].
+    congruence.
+  Qed.
 
   (** ---- value bound by the tree: for an ordered tree an accepted value is
       the one [get] returns ---- *)
 
   Theorem sound_value : forall t pf k v v' pi,
-    ordered t -> sized t -> no_confusable (elements t) = true ->
+    ordered t -> sized t ->
     snd (get t k) = Some v ->
     verify_kv H (digest H pf t) k v' pi = true ->
     v' = v \/ collision.
   Proof.
-    intros t pf k v v' pi Ho Hs Hg G V.
-    destruct (sound _ _ _ _ _ Hs Hg V) as [I|C]; [left|right; exact C].
+    intros t pf k v v' pi Ho Hs G V.
+    destruct (sound _ _ _ _ _ Hs V) as [I|C]; [left|right; exact C].
     destruct (construct_present _ Ho pf _ _ I) as (lh & pi0 & Cn).
     apply construct_get in Cn. congruence.
   Qed.
 
-  (** ---- the leaf / inner-node confusion (known finding 1): for EVERY hash
-      function, a tree holding a leaf (k0, d) with d the leaf digest of (k, v)
-      and a short non-empty key k0 accepts (k, v) ---- *)
+  (** ---- the leaf / inner-node confusion (finding C03-leaf-inner-confusion,
+      fixed): a tree holding a leaf (k0, d) - or (d, v0) - with d the leaf digest
+      of a pair (k, v) used to accept (k, v) with the one-node proof
+      {height 0, size 1, k0 / v0}, because that node makes the chain hash the
+      stored leaf's own message.  The chain still ends in the root ... ---- *)
 
-  Theorem leaf_inner_confusion_value : forall pf k v k0,
+  Lemma confusion_chain_value : forall pf k v k0,
     k0 <> [] -> (length k0 <= 32)%nat ->
-    verify_kv H (digest H pf (Leaf k0 (leaf_hash H k v))) k v [mk_pnode 0 1 k0 []] = true.
+    chain H (leaf_hash H k v) [mk_pnode 0 1 k0 []] = digest H pf (Leaf k0 (leaf_hash H k v)).
   Proof.
-    intros pf k v k0 Hne Hl. apply verify_kv_true. simpl.
+    intros pf k v k0 Hne Hl. simpl.
     rewrite iph_right by exact Hne. unfold inner_hash, leaf_hash.
     rewrite (trim32_short k0) by exact Hl.
     rewrite trim32_short by (rewrite H_len; lia). reflexivity.
   Qed.
 
-  Theorem leaf_inner_confusion_key : forall pf k v v0,
+  Lemma confusion_chain_key : forall pf k v v0,
     (length v0 <= 32)%nat ->
-    verify_kv H (digest H pf (Leaf (leaf_hash H k v) v0)) k v [mk_pnode 0 1 [] v0] = true.
+    chain H (leaf_hash H k v) [mk_pnode 0 1 [] v0] = digest H pf (Leaf (leaf_hash H k v) v0).
   Proof.
-    intros pf k v v0 Hl. apply verify_kv_true. simpl.
+    intros pf k v v0 Hl. simpl.
     rewrite iph_left. unfold inner_hash, leaf_hash.
     rewrite (trim32_short v0) by exact Hl.
     rewrite trim32_short by (rewrite H_len; lia). reflexivity.
+  Qed.
+
+  (** ... but the verifier now rejects both forgeries (and every proof that
+      contains such a node, in any position, for any root). *)
+  Theorem confusion_rejected_value : forall pf k v k0 front back,
+    verify_kv H (digest H pf (Leaf k0 (leaf_hash H k v))) k v
+              (front ++ mk_pnode 0 1 k0 [] :: back) = false.
+  Proof.
+    intros. apply bad_height_rejected. rewrite existsb_app. simpl. apply orb_true_r.
+  Qed.
+
+  Theorem confusion_rejected_key : forall pf k v v0 front back,
+    verify_kv H (digest H pf (Leaf (leaf_hash H k v) v0)) k v
+              (front ++ mk_pnode 0 1 [] v0 :: back) = false.
+  Proof.
+    intros. apply bad_height_rejected. rewrite existsb_app. simpl. apply orb_true_r.
   Qed.
 
   (** ---- link with C01's symbolic hash: the byte root is a function of the
